@@ -67,12 +67,16 @@ PROP = dict(
              "that removes redundant activity details), tied by the route-dump correspondence (every route of real solver outputs is dumped "
              "through the public core API and the model must render exactly the tour the real writer rendered); the older statistic-only "
              "fold C03.foldLeg",
-    traced="create_solution around create_tour (overall statistic, unassigned, violations) and the writer on clustered / reserved-time "
-           "routes: Spec.replay recomputes from matrices, vehicle costs and the reported visiting order only — arrival = previous "
+    traced="create_solution around create_tour (overall statistic, unassigned, violations); the writer on tours of vehicles with REQUIRED "
+           "breaks (break_writer.rs insert_reserved_times_as_breaks is not modelled): one problem in five of the writer stage has required "
+           "breaks and every written tour is judged by the break clauses C03W.specBreakTour (driving+serving+waiting+break = duration, duration "
+           "= span of the stops, cost = fixed + distance*c_d + duration*c_t, break entry = sum of the reported break activities, every break "
+           "inside the tour's time span) - this stream found S52, S53, S54; the writer on clustered routes: Spec.replay recomputes from matrices, vehicle costs and the reported visiting order only — arrival = previous "
            "departure + scaled travel time, cumulative stop distances, activities inside a stop sequential, load per stop (per reload "
            "interval), tour statistic, cost = fixed + distance*c_d + duration*c_t, overall = sum of tours; the reported tag is the tag of "
            "the place (location, duration, window) that explains the activity (Spec.feasible/placeExplains)",
-    out_of_model="commute/parking (clustering), reserved times inserted as breaks, the +-1 rounding of non-integral data (integer data only)",
+    out_of_model="commute/parking (clustering); the positions and times of break activities written for reserved times (only their accounting is "
+                 "judged); the +-1 rounding of non-integral data (integer data only)",
     assumptions=["integer-valued data: the +-1 tolerance of the format is applied but never needed"],
 )
 
